@@ -52,10 +52,10 @@ def plan(prop, tier):
         )
     if prop == "C03":
         return explorer_plan(
-            "c03", tier, 2500, 40000, GEN_RULE + "; C03 oracle: waker ledger at quiescent points + strict executor (re-polls only woken ops) + bounded queue-space progress; plus the multi-threaded schedules of scenario c04 (2-4 submitter threads each running a strict executor - poll, then block until the waker fired - while the ring thread polls; a thread still blocked once the queue is empty and nothing is in flight is a lost wake-up)",
+            "c03", tier, 2500, 40000, GEN_RULE + "; C03 oracle: waker ledger at quiescent points + strict executor (re-polls only woken ops) + bounded queue-space progress; plus the multi-threaded schedules of scenario c04 (2-4 submitter threads each running a strict executor - poll, then block until the waker fired - while the ring thread polls; a thread still blocked once the queue is empty and nothing is in flight is a lost wake-up) and the same on the real kernel (scenario c04real: a thread still waiting for a write whose token has arrived at the other end of the pipe)",
             ["repoll:new-waker", "repoll:same-waker", "resolved:Single", "resolved:Multi", "ops_resolved"],
-            extra_quick=[gen_job("c04", "native-debug", 40, 8, timeout=400)],
-            extra_thorough=[gen_job("c04", "native-debug", 1500, 16, timeout=3000), gen_job("c04", "native-release", 1500, 16, timeout=3000)],
+            extra_quick=[gen_job("c04", "native-debug", 40, 8, timeout=400), gen_job("c04real", "native-debug", 60, 8, timeout=600)],
+            extra_thorough=[gen_job("c04", "native-debug", 1500, 16, timeout=3000), gen_job("c04", "native-release", 1500, 16, timeout=3000), gen_job("c04real", "native-debug", 3000, 16, timeout=3000), gen_job("c04real", "native-release", 3000, 16, timeout=3000)],
         )
     if prop == "C05":
         return explorer_plan(
@@ -79,13 +79,15 @@ def plan(prop, tier):
     if prop == "C04":
         rule = ("(a) single-threaded sweep: queue sizes 1,2,4,8 x counters started at 0, 2^31-2..2^31 and 2^32-k for every k<=2*size+1, and sizes 16,64,1024,4096 x the boundary values k in {0,1,2,size-1,size,size+1,2size-1,2size,2size+1,3size}, 3*size+3 reads each; "
                 "(b) baton-scheduler schedules: 2-4 submitter threads + ring thread (+ simulated SQPOLL kernel thread) on 1-8 entry queues, kernel consuming/completing at every entry, "
-                "seeded random-walk and PCT schedules switching at the a10_verif scheduling points; non-trivial = at least 2 context switches; distinct = hash of the switch sequence + configuration")
+                "seeded random-walk and PCT schedules switching at the a10_verif scheduling points; non-trivial = at least 2 context switches; distinct = hash of the switch sequence + configuration; "
+                "(c) real kernel (scenario c04real): 2-4 free-running threads write uniquely tagged 16-byte tokens through one 1-8 entry queue into a pipe while the ring thread polls; a reader on the other end must see every token exactly once, unmodified")
         if tier == "quick":
-            jobs = [gen_job("c04", "native-debug", 100, 16, timeout=400), gen_job("c04free", "tsan", 8, 4, timeout=600)]
+            jobs = [gen_job("c04", "native-debug", 100, 16, timeout=400), gen_job("c04free", "tsan", 8, 4, timeout=600), gen_job("c04real", "native-debug", 60, 8, timeout=600)]
         else:
             jobs = [gen_job("c04", "native-debug", 2500, 16, timeout=3000), gen_job("c04", "native-release", 2500, 16, timeout=3000),
-                    gen_job("c04", "asan", 300, 16, timeout=3000), gen_job("c04free", "tsan", 40, 8, timeout=3000), gen_job("c04free", "miri", 5, 16, timeout=3000)]
-        return dict(jobs=jobs, level="exploration", rule=rule, floor_cells=["wrap-sweep:size=1", "wrap-sweep:size=8", "wrap-sweep:size=4096", "sq=1", "sq=2", "start=near-2^32", "submitters=2", "sqpoll=true", "sched_switches"],
+                    gen_job("c04", "asan", 300, 16, timeout=3000), gen_job("c04free", "tsan", 40, 8, timeout=3000), gen_job("c04free", "miri", 5, 16, timeout=3000),
+                    gen_job("c04real", "native-debug", 3000, 16, timeout=3000), gen_job("c04real", "native-release", 3000, 16, timeout=3000), gen_job("c04real", "tsan", 300, 8, timeout=3000)]
+        return dict(jobs=jobs, level="exploration", rule=rule, floor_cells=["wrap-sweep:size=1", "wrap-sweep:size=8", "wrap-sweep:size=4096", "real_tokens_received", "sq=1", "sq=2", "start=near-2^32", "submitters=2", "sqpoll=true", "sched_switches"],
                     floor_evaluations=500, assumptions=SIMK_ASSUMPTIONS + ["the scheduler only switches threads at the hook points: interleavings inside other instruction sequences and weak-memory effects are left to the free-running jobs under ThreadSanitizer and under Miri (its own scheduler, data-race detector and weak-memory emulation, a different -Zmiri-seed per shard)"], also=[])
     if prop == "C14":
         rule = ("pure calls on every provided Buf/BufMut/BufSlice/BufMutSlice implementation and wrapper: Vec capacities 0..12 x fill levels x n exhaustively, random larger ones, "
